@@ -12,8 +12,8 @@ EXPLANATION = ('The solver\'s design makes the property structural: a candidate 
                'arguments; (R01.4) every angle slot passes is_finite on the true edge before the push, the 5-DOF J6 slot receives no NaN '
                'constant; (R01.5) after the gate solution elements are written only by the 2*pi near-normaliser; (R01.6) plain inverse stores '
                'each angle after the two reduction loops (exit edges !(x > PI), !(x < -PI), updates -/+ 2*PI); (R01.7) panic-site census of '
-               'the four entry points.  Whether a closed-form candidate is accurate enough to pass the gate is numerical and not decided.')
-NOT_DECIDED = 'that closed-form candidates pass the gate (C02); independence of the FK model (C03); IEEE behaviour inside nalgebra; poses with infinite components'
+               'the four entry points; the clauses of C03 (forward() is the OPW chain, one joint convention) are re-checked because the gate is only as good as forward().  Whether a closed-form candidate is accurate enough to pass the gate is numerical and not decided.')
+NOT_DECIDED = 'that closed-form candidates pass the gate (C02); IEEE behaviour inside nalgebra; poses with infinite components'
 ASSUMPTIONS = ['nalgebra norm()/angle_to() compute the Euclidean norm / rotation angle', 'forward() is the FK model of C03']
 
 
@@ -223,6 +223,11 @@ def run(ctx):
     C04._near_normaliser(ctx, prog, C04._norm_role(ctx, prog))
     _normalisation(ctx, six, 6)
     _normalisation(ctx, five, 5)
+    # The gate compares against forward(): an answer "reproduces the requested pose" only if forward() is the robot's
+    # forward kinematics.  A change that re-defines forward() and the solver's joint conversion consistently passes every
+    # gate rule above and still returns wrong joint values, so the clauses of C03 are re-checked here.
+    from . import C03
+    C03.run(ctx)
     entries = [methods[m].path for m in util.INVERSE_METHODS]
     n, nd, na = census.census(ctx, 'R01.7', entries)
     ctx.extra['census'] = {'sites': n, 'discharged_by_bounds_or_guards': nd, 'allow_listed': na}
